@@ -239,6 +239,9 @@ func (b *batch) validate(c *vf.Ctx, label string) {
 		map[string]any{"mesh": r.desc, "topology": r.ms.Topo(), "steps": r.steps, "event": ev}, nil)
 }
 
+// label modes: 0 = mixed 1-/2-byte, 1 = tiny (1..23, one CBOR byte), 2 = any 1-byte, 3 = only 2-byte
+var labelMode int
+
 func toEdges(raw [][]int, rng *rand.Rand, big bool) []mesh.Edge {
 	used := map[int]map[m.SwitchLabel]bool{}
 	pick := func(n int) m.SwitchLabel {
@@ -247,9 +250,16 @@ func toEdges(raw [][]int, rng *rand.Rand, big bool) []mesh.Edge {
 		}
 		for {
 			var l m.SwitchLabel
-			if big && rng.Intn(2) == 0 {
+			switch {
+			case labelMode == 1:
+				l = m.SwitchLabel(1 + rng.Intn(23))
+			case labelMode == 2:
+				l = m.SwitchLabel(1 + rng.Intn(127))
+			case labelMode == 3:
 				l = m.SwitchLabel(128 + rng.Intn(16256))
-			} else {
+			case big && rng.Intn(2) == 0:
+				l = m.SwitchLabel(128 + rng.Intn(16256))
+			default:
 				l = m.SwitchLabel(1 + rng.Intn(127))
 			}
 			if !used[n][l] {
@@ -488,9 +498,18 @@ func run0(c *vf.Ctx) {
 			if f.name == "grid" && n > 9 && !c.Thorough() {
 				n = 9
 			}
-			for rep := 0; rep < reps; rep++ {
+			for rep := 0; rep < reps*4; rep++ {
+				// every label class: mixed, tiny, any 1-byte, only 2-byte (star nodes have up to 15 links: no tiny mode there)
+				labelMode = rep % 4
+				if labelMode == 1 && (f.name == "star" || f.name == "grid") && n > 8 {
+					labelMode = 2
+				}
+				if rep >= 1 && n < 16 && !c.Thorough() {
+					continue // quick: the extra label classes only on the largest meshes
+				}
 				raw := f.gen(n)
 				edges := toEdges(raw, rng, true)
+				labelMode = 0
 				infoSeed := rng.Intn(4)
 				cfg := func(i int) config.Store {
 					var s config.Store
@@ -512,7 +531,7 @@ func run0(c *vf.Ctx) {
 				for i := range all {
 					all[i] = i + 1
 				}
-				r, err := newRun(c, n, edges, cfg, map[string]any{"family": f.name, "n": n, "edges": raw, "rep": rep})
+				r, err := newRun(c, n, edges, cfg, map[string]any{"family": f.name, "n": n, "edges": raw, "rep": rep, "labels": []string{"mixed", "tiny", "1-byte", "2-byte"}[rep%4]})
 				if err != nil {
 					c.Fatal("mesh %s/%d: %v", f.name, n, err)
 				}
